@@ -23,5 +23,8 @@ package ot
 //@   requires mrok(r)
 //@   loop 1: invariant each(msg.RCheck[:rangeindex+1], c, c != nil)
 //@   loop 2: invariant each(msg.RCheck, c, c != nil) && mrok(r)
+//@   loop 2: invariant[C13] callcount(Equal) == i && 0 <= i && i <= len(result) && len(result) == len(r.gadget)
+//@   loop 3: invariant[C13] callcount(Equal) == len(r.gadget) && len(result) == len(r.gadget)
+//@   ensures[C13] result1 == nil ==> callcount(Equal) == len(r.gadget)
 //@   ensures[C13] result1 == nil ==> (msg != nil && msg.UCheck != nil && len(msg.RCheck) == len(r.gadget) && result0 != nil)
 //@   assert_at[C13] Equal "if !checkLeft.Equal(checkRight) {": 0 <= i && i < len(result) && len(result) == len(r.gadget)
